@@ -283,6 +283,37 @@ theorem loaded_history_refines_revm {db : Db} (hdb : db.Ok) (ops : List Op)
     · exact hpre op h
   exact ⟨g2, o :: os, hrun, acct_history_refines_revm hdb _ hpre' hrun⟩
 
+/-- **transition_is_exact_delta.** Every transition grevm reports for a committed journal state
+    records exactly the cache entry before (previous info / status) and after (info / status) the
+    operation — so the transitions of a block chain (each one's "previous" is its predecessor's
+    "present"), which is what revert construction relies on. -/
+theorem transition_is_exact_delta (db : Db) (g g' : G) (ga : GAcct) (op : Op) (t : Trans)
+    (hga : g.acct = some ga)
+    (hop : op = .selfdestruct ∨ op = .touchEmpty ∨ (∃ i c, op = .create i c) ∨ (∃ i c, op = .change i c))
+    (h : G.step db g op = some (g', .trans (some t))) :
+    t.prevInfo = ga.info ∧ t.prevStatus = ga.status ∧ g'.acct = some ⟨t.info, t.status⟩ := by
+  rcases hop with rfl | rfl | ⟨i, c, rfl⟩ | ⟨i, c, rfl⟩
+  · simp only [G.step, hga, Option.map, GAcct.selfdestruct] at h
+    simp only [Option.some.injEq, Prod.mk.injEq, Out.trans.injEq] at h
+    obtain ⟨rfl, ht⟩ := h
+    split at ht
+    · cases ht
+    · cases ht; exact ⟨rfl, rfl, rfl⟩
+  · simp only [G.step, hga, Option.map, GAcct.touchEmpty] at h
+    simp only [Option.some.injEq, Prod.mk.injEq, Out.trans.injEq] at h
+    obtain ⟨rfl, ht⟩ := h
+    split at ht
+    · cases ht
+    · cases ht; exact ⟨rfl, rfl, rfl⟩
+  · simp only [G.step, hga, Option.map, GAcct.newlyCreated] at h
+    simp only [Option.some.injEq, Prod.mk.injEq, Out.trans.injEq] at h
+    obtain ⟨rfl, ht⟩ := h
+    cases ht; exact ⟨rfl, rfl, rfl⟩
+  · simp only [G.step, hga, Option.map, GAcct.change] at h
+    simp only [Option.some.injEq, Prod.mk.injEq, Out.trans.injEq] at h
+    obtain ⟨rfl, ht⟩ := h
+    cases ht; exact ⟨rfl, rfl, rfl⟩
+
 /-- **storage_known_is_monotone.** No status transition of a committed account makes a
     storage-known account storage-unknown again (so a zero served for an unread slot is never
     retracted in favour of the database). -/
